@@ -159,7 +159,20 @@ func sessionEngines(t *tape.Tape, fill bool) *core.RunResult {
 			res.Probe("detour-move-and-take-back")
 		}
 	}
+	// the earlier analysis of an engine may have run under other options: noise on then, off now (options
+	// take effect at the next Reset, which every analysis here starts with)
+	noisyPred := !fill && noise == 0 && predecessor && t.Chance(1, 3)
+	if noisyPred {
+		res.Probe("predecessor-analysed-with-noise-on")
+	}
 	analyze := func(e *engSim, gm *rules.Game, d int) bool {
+		if noisyPred && e.name != "solo" {
+			if gm == g0 {
+				e.b.E.SetNoise(50)
+			} else {
+				e.b.E.SetNoise(0)
+			}
+		}
 		if err := setup(ctx, e.b.E, gm); err != nil {
 			res.Discarded = "engine refuses the game: " + err.Error()
 			return false
